@@ -47,6 +47,7 @@ func cmdRun(args []string) {
 	params := fs.String("params", "", "k=v,k=v")
 	shard := fs.Int("shard", 0, "")
 	maxdec := fs.Int("maxdec", 0, "")
+	conc := fs.Bool("concurrent", false, "concurrency mode")
 	fs.Parse(args)
 	repo := env("VERIF_REPO", "/repo")
 	vdir := env("VERIF_DIR", "/verif")
@@ -85,6 +86,20 @@ func cmdRun(args []string) {
 	defer x.Close()
 	if err := x.RunInit(p); err != nil {
 		fmt.Fprintln(os.Stderr, "init:", err)
+	}
+	if *conc {
+		cm := x.RunConcurrent(fn)
+		fmt.Printf("result=%s threads=%d paths=%d nodes=%d reads=%d writes=%d passes=%d encode=%.1fs solve=%.1fs\n", cm.Stats.Result, cm.Stats.Threads, cm.Stats.Paths, cm.Stats.Nodes, cm.Stats.Reads, cm.Stats.Writes, cm.Stats.Passes, cm.Stats.EncodeS, cm.Stats.SolveS)
+		for _, n := range x.Inconcl {
+			fmt.Println("NOTE:", n)
+		}
+		if cm.Stats.Result == "sat" {
+			fmt.Println("VIOLATION:", cm.BadTag)
+			for _, l := range cm.Schedule {
+				fmt.Println("  ", l)
+			}
+		}
+		return
 	}
 	rep := x.Explore(fn)
 	b, _ := json.MarshalIndent(rep, "", " ")
